@@ -1,6 +1,255 @@
-(* C13 — placeholder while the proofs are being written *)
-From Coq Require Import QArith.
+(* C13 — A service is accepted exactly when its worst channel clears the mode's threshold.
+   Property theorems only; the proofs are in Proofs/Verdict.v, the model in Model/Verdict.v.
+
+   Vocabulary (Model/Verdict.v):
+     receiver, rxch        per channel: baud rate, four RAW (line only) figures and four current figures, all as 1/ratio
+     update_snr r args     Transceiver.update_snr called with args: 0.1 nm SNRs (1/linear), scalar / per channel / None
+     one_pen raw x         penalty of impairment value x for the table `raw` as listed in the equipment file
+                           (normalised at load: (0,0) inserted when every abscissa is > 0, sorted; +inf outside)
+     metric T f            round(min over channels (GSNR_0.1nm - total penalty), 2)   (met: a rational or -inf)
+     decide_fixed          blocking reason of a request whose mode is given (forward, then reverse when bidirectional)
+     mode_loop margin P lib sp   propagate_and_optimize_mode, P it m = receiver figures of mode m after the propagation
+                           `it` = (baud rate, offset);  explore lib sp = the (propagation, mode) pairs in the code's order
+     eval1 margin P it m   Pass (metric > OSNR + margin, STRICT) | Fail | NoSnr | Raise
+     loop_st step ...      the same loop with the state of the path threaded through the propagations *)
+From Coq Require Import QArith Sorted.
 From Verif Require Import Prelude Model.Verdict Proofs.Verdict.
-Example placeholder_c13 : round2 (1 # 3) == 33 # 100.
-Proof. vm_compute. reflexivity. Qed.
-Print Assumptions placeholder_c13.
+Open Scope Q_scope.
+
+(* ---- the receiver counts every noise contribution exactly once, whatever happened before ---- *)
+(* histories: after ANY sequence of update_snr calls a further call gives what it gives on the untouched receiver
+   (same figures, same error): no accumulation from one mode of the loop to the next *)
+Theorem update_snr_hist_indep : forall h r r1 args,
+  run_updates r h = Ok r1 -> update_snr r1 args = update_snr r args.
+Proof. exact Proofs.Verdict.update_snr_hist_indep. Qed.
+Print Assumptions update_snr_hist_indep.
+
+Theorem raw_figures_survive : forall h r r1, run_updates r h = Ok r1 -> Forall2 same_raw r1 r.
+Proof. exact Proofs.Verdict.run_updates_raw. Qed.
+Print Assumptions raw_figures_survive.
+
+(* 1/GSNR_rx = 1/GSNR_line + sum over the crossed ROADMs of their entry (None = express: nothing) + 1/OSNR_tx *)
+Theorem once_each : forall r roadms tx r' k c,
+  update_snr r (roadms ++ [Some (Scalar tx)]) = Ok r' -> nth_error r k = Some c ->
+  exists c', nth_error r' k = Some c' /\ same_raw c' c /\
+    snr_01 c' == raw_snr_01 c + added_at roadms k + tx /\
+    osnr_01 c' == raw_osnr_01 c + added_at roadms k + tx /\
+    snr_bw c' == raw_snr_bw c + (added_at roadms k + tx) * (baud c / ref_bw) /\
+    osnr_bw c' == raw_osnr_bw c + (added_at roadms k + tx) * (baud c / ref_bw).
+Proof. exact Proofs.Verdict.once_each. Qed.
+Print Assumptions once_each.
+
+Theorem express_adds_nothing : forall l k, added_at (None :: l) k = added_at l k.
+Proof. exact Proofs.Verdict.added_at_none. Qed.
+Print Assumptions express_adds_nothing.
+
+(* ---- the metric is the rounded worst channel ---- *)
+Theorem metric_is_worst_channel : forall T f m, metric T f = Ok m ->
+  exists l, chan_mets T (f_g01 f) (f_cd f) (f_pmd f) (f_pdl f) = Ok l /\ l <> [] /\
+    (forall y, In y l -> met_le m (met_round2 y)) /\ (exists y, In y l /\ met_eq m (met_round2 y)).
+Proof. exact Proofs.Verdict.metric_spec. Qed.
+Print Assumptions metric_is_worst_channel.
+
+Theorem channel_values : forall T g cd pmd pdl l,
+  chan_mets T g cd pmd pdl = Ok l ->
+  length l = length g /\
+  forall k gk ck pk dk, nth_error g k = Some gk -> nth_error cd k = Some ck -> nth_error pmd k = Some pk ->
+    nth_error pdl k = Some dk -> nth_error l k = Some (met_sub gk (total_pen T ck pk dk)).
+Proof. exact Proofs.Verdict.chan_mets_spec. Qed.
+Print Assumptions channel_values.
+
+Theorem rounding_is_monotone_and_close : forall a b,
+  (a <= b -> round2 a <= round2 b) /\ Qabs.Qabs (round2 a - a) <= 1 # 200.
+Proof. intros a b. split; [apply Proofs.Verdict.round2_mono | apply Proofs.Verdict.round2_close]. Qed.
+Print Assumptions rounding_is_monotone_and_close.
+
+(* ---- fixed mode: feasible iff the metric of the path (and of the reverse path) is at least OSNR + margin ---- *)
+Theorem verdict_fixed_spec : forall thr fwd rev,
+  (decide_fixed thr fwd rev = None <->
+     met_le (MFin thr) fwd /\ (forall r, rev = Some r -> met_le (MFin thr) r)) /\
+  (decide_fixed thr fwd rev = None \/ decide_fixed thr fwd rev = Some MODE_NOT_FEASIBLE).
+Proof. exact Proofs.Verdict.verdict_fixed_spec. Qed.
+Print Assumptions verdict_fixed_spec.
+
+(* ---- an impairment outside the mode's penalty table always blocks ---- *)
+Theorem penalty_above_table : forall raw x, raw <> [] -> (forall p, In p raw -> fst p < x) -> one_pen raw x = PInf.
+Proof. exact Proofs.Verdict.one_pen_above. Qed.
+Print Assumptions penalty_above_table.
+Theorem penalty_below_table : forall raw x, raw <> [] -> (forall p, In p raw -> x < fst p) -> x < 0 -> one_pen raw x = PInf.
+Proof. exact Proofs.Verdict.one_pen_below. Qed.
+Print Assumptions penalty_below_table.
+Theorem penalty_inside_finite : forall raw x, raw <> [] ->
+  (exists p, In p (normalise raw) /\ fst p <= x) -> (exists p, In p (normalise raw) /\ x <= fst p) ->
+  exists q, one_pen raw x = PFin q.
+Proof. exact Proofs.Verdict.one_pen_inside. Qed.
+Print Assumptions penalty_inside_finite.
+Theorem normalised_table : forall raw,
+  StronglySorted (fun p q => fst p <= fst q) (normalise raw) /\
+  forall p, In p (normalise raw) <-> In p raw \/ (p = (0, 0) /\ forallb (fun p => Qlt_bool 0 (fst p)) raw = true).
+Proof. intros raw. split; [apply Proofs.Verdict.normalise_asc | apply Proofs.Verdict.normalise_in]. Qed.
+Print Assumptions normalised_table.
+
+(* one channel whose CD, PMD or PDL is outside its table: blocked in fixed mode and never selected, for every threshold *)
+Theorem penalty_outside_blocks : forall T f m k gk ck pk dk thr, metric T f = Ok m ->
+  nth_error (f_g01 f) k = Some gk -> nth_error (f_cd f) k = Some ck -> nth_error (f_pmd f) k = Some pk ->
+  nth_error (f_pdl f) k = Some dk ->
+  one_pen (t_cd T) ck = PInf \/ one_pen (t_pmd T) pk = PInf \/ one_pen (t_pdl T) dk = PInf ->
+  blocked_fixed thr m = true /\ passes_auto thr m = false.
+Proof. exact Proofs.Verdict.penalty_outside_blocks. Qed.
+Print Assumptions penalty_outside_blocks.
+
+(* ---- automatic mode ---- *)
+(* the loop returns the first pair of the exploration order that does not fail *)
+Theorem mode_loop_spec : forall margin P lib sp,
+  mode_loop margin P lib sp = first_decisive margin P (explore lib sp) None.
+Proof. exact Proofs.Verdict.mode_loop_first_decisive. Qed.
+Print Assumptions mode_loop_spec.
+
+(* the exploration order: exactly the fitting modes, grouped by propagation; propagations strictly decreasing in
+   (baud rate, offset) — each (baud, offset) value once —, modes of a propagation non-increasing in (bit rate, offset) *)
+Theorem exploration_order : forall lib sp,
+  (forall it m, In (it, m) (explore lib sp) <->
+     In it (iters lib sp) /\ In m lib /\ m_baud m == fst it /\ fits sp m = true) /\
+  (forall it, In it (iters lib sp) -> exists m, In m lib /\ fits sp m = true /\ it = (m_baud m, m_off m)) /\
+  (forall m, In m lib -> fits sp m = true -> exists it, In it (iters lib sp) /\ iter_eqb (m_baud m, m_off m) it = true) /\
+  StronglySorted (fun a b => iter_gtb a b = true) (iters lib sp) /\
+  (forall br, StronglySorted (fun a b => key_gtb b a = false) (modes_of lib sp br)).
+Proof.
+  intros lib sp. split; [apply Proofs.Verdict.explore_in|]. split; [apply Proofs.Verdict.iters_in|].
+  split; [apply Proofs.Verdict.iters_repr|]. split; [apply Proofs.Verdict.iters_sorted | apply Proofs.Verdict.modes_of_sorted].
+Qed.
+Print Assumptions exploration_order.
+
+(* a selected mode fits the spacing and clears its threshold strictly; every fitting mode with a higher baud rate, and
+   every fitting mode of the same baud rate with a higher (bit rate, offset), was evaluated before and failed *)
+Theorem mode_loop_selected : forall margin P lib sp it m,
+  mode_loop margin P lib sp = Selected it m ->
+  In m lib /\ fits sp m = true /\ m_baud m == fst it /\ In it (iters lib sp) /\ eval1 margin P it m = Pass /\
+  (forall m', In m' lib -> fits sp m' = true -> fst it < m_baud m' ->
+     exists it', In it' (iters lib sp) /\ iter_eqb (m_baud m', m_off m') it' = true /\ eval1 margin P it' m' = Fail) /\
+  (forall m', In m' lib -> fits sp m' = true -> m_baud m' == fst it -> key_gtb m' m = true ->
+     eval1 margin P it m' = Fail).
+Proof. exact Proofs.Verdict.mode_loop_selected. Qed.
+Print Assumptions mode_loop_selected.
+
+Theorem mode_loop_selected_conv : forall margin P lib sp l1 l2 it m,
+  explore lib sp = l1 ++ (it, m) :: l2 -> Forall (fails margin P) l1 -> eval1 margin P it m = Pass ->
+  mode_loop margin P lib sp = Selected it m.
+Proof. exact Proofs.Verdict.mode_loop_selected_conv. Qed.
+Print Assumptions mode_loop_selected_conv.
+
+(* none feasible: NO_FEASIBLE_MODE with the last explored mode *)
+Theorem mode_loop_no_feasible_mode : forall margin P lib sp,
+  (forall it m, mode_loop margin P lib sp = NoFeasibleMode it m ->
+     Forall (fails margin P) (explore lib sp) /\ explore lib sp <> [] /\
+     List.last (explore lib sp) (it, m) = (it, m) /\ In (it, m) (explore lib sp)) /\
+  (Forall (fails margin P) (explore lib sp) -> explore lib sp <> [] ->
+     exists it m, mode_loop margin P lib sp = NoFeasibleMode it m /\ In (it, m) (explore lib sp)).
+Proof. intros. split; [apply Proofs.Verdict.mode_loop_nomode | apply Proofs.Verdict.mode_loop_nomode_conv]. Qed.
+Print Assumptions mode_loop_no_feasible_mode.
+
+(* no baud rate fits: NO_FEASIBLE_BAUDRATE_WITH_SPACING, and only then *)
+Theorem mode_loop_no_baudrate : forall margin P lib sp,
+  mode_loop margin P lib sp = NoBaudrate <-> forall m, In m lib -> fits sp m = false.
+Proof. exact Proofs.Verdict.mode_loop_nobaud. Qed.
+Print Assumptions mode_loop_no_baudrate.
+
+(* Pass / Fail are the strict comparison of the metric with OSNR + margin *)
+Theorem pass_is_strict : forall margin P it m,
+  (eval1 margin P it m = Pass <->
+     exists f x, P it m = Some f /\ metric (m_tab m) f = Ok x /\ ~ met_le x (MFin (m_osnr m + margin))) /\
+  (eval1 margin P it m = Fail <->
+     exists f x, P it m = Some f /\ metric (m_tab m) f = Ok x /\ met_le x (MFin (m_osnr m + margin))).
+Proof. intros. split; [apply Proofs.Verdict.eval1_pass | apply Proofs.Verdict.eval1_fail]. Qed.
+Print Assumptions pass_is_strict.
+
+(* The deciding propagation is the selected mode's own (baud, offset) when the modes of a baud rate share their
+   offset.  Without that guard the statement is FALSE of the code: the loop evaluates every mode of a baud rate on the
+   propagation of every offset of that baud rate (finding F15). *)
+Theorem selected_own_offset_partial : forall margin P lib sp it m,
+  (forall a b, In a lib -> In b lib -> m_baud a == m_baud b -> m_off a == m_off b) ->
+  mode_loop margin P lib sp = Selected it m -> iter_eqb it (m_baud m, m_off m) = true.
+Proof. exact Proofs.Verdict.selected_own_offset. Qed.
+Print Assumptions selected_own_offset_partial.
+(* full statement (false):  forall margin P lib sp it m, mode_loop margin P lib sp = Selected it m ->
+                            iter_eqb it (m_baud m, m_off m) = true *)
+Theorem selected_own_offset_refuted : exists margin P lib sp it m,
+  mode_loop margin P lib sp = Selected it m /\ iter_eqb it (m_baud m, m_off m) = false /\
+  eval1 margin P (m_baud m, m_off m) m = Fail.
+Proof.
+  exists 0, w2_P, w2_lib, 50, (32, 4), (mkM 1 32 (-2) 100 (75 # 2) 20 (mkT [] [] [])).
+  destruct w2_foreign_offset as [A B]. split; [exact A|]. split; [reflexivity | exact B].
+Qed.
+Print Assumptions selected_own_offset_refuted.
+
+(* ---- the loop with the amplifier state made explicit ---- *)
+(* the code as it is shares the path (and the clamped amplifier gains) between the propagations of the loop:
+   "the figures of every propagation are those of a fresh propagation" is FALSE (finding F6) ... *)
+(* full statement (false):  forall p ls, leaky_runs p ls = fresh_runs p ls   and
+                            forall load_of conv margin lib sp p, fst (mode_loop_st (leaky_step load_of conv) margin lib sp p)
+                                                                  = mode_loop margin (fresh_provider p load_of conv) lib sp *)
+Theorem mode_loop_fresh_state_needed_refuted :
+  (exists p ls, leaky_runs p ls <> fresh_runs p ls) /\
+  (exists load_of conv margin lib sp p,
+     fst (mode_loop_st (leaky_step load_of conv) margin lib sp p) <> mode_loop margin (fresh_provider p load_of conv) lib sp).
+Proof.
+  split.
+  - exists w_path, [w_load (64, 8); w_load (32, 0)]. exact w_figures_differ.
+  - exists w_load, w_conv, 0, w_lib, 75, w_path. destruct w_decision_differs as [A B]. rewrite A, B. discriminate.
+Qed.
+Print Assumptions mode_loop_fresh_state_needed_refuted.
+(* ... it holds under the guard that no propagation changes the state of the path (no amplifier saturates) ... *)
+Theorem leaky_is_fresh_without_saturation : forall p ls,
+  (forall l, In l ls -> fst (run_load p l) = p) -> leaky_runs p ls = fresh_runs p ls.
+Proof. exact Proofs.Verdict.leaky_eq_fresh_if_stable. Qed.
+Print Assumptions leaky_is_fresh_without_saturation.
+(* ... and unconditionally on the repaired model, where every propagation starts from the designed state: the decision
+   is the specification-level one on fresh figures and the path is left as designed *)
+Theorem mode_loop_indep : forall load_of conv margin lib sp designed,
+  mode_loop_st (repaired_step load_of conv) margin lib sp designed =
+  (mode_loop margin (fresh_provider designed load_of conv) lib sp, designed).
+Proof. exact Proofs.Verdict.mode_loop_indep. Qed.
+Print Assumptions mode_loop_indep.
+
+(* ---- non-vacuity ---- *)
+Definition ex_rx : receiver := [receive1 32 (1 # 1000) (2 # 1000) (3 # 1000) (4 # 1000); receive1 64 (1 # 500) (1 # 400) (1 # 300) (1 # 200)].
+Example ex_history :
+  exists r1, run_updates ex_rx [[Some (Scalar (1 # 100))]; [Some (Arr [1 # 50; 1 # 60]); None; Some (Scalar (1 # 10))]] = Ok r1 /\
+  update_snr r1 [Some (Arr [1 # 7; 1 # 9]); None; Some (Scalar (1 # 10000))] =
+  update_snr ex_rx [Some (Arr [1 # 7; 1 # 9]); None; Some (Scalar (1 # 10000))] /\
+  exists r2, update_snr ex_rx [Some (Arr [1 # 7; 1 # 9]); None; Some (Scalar (1 # 10000))] = Ok r2 /\
+             map snr_01 r2 <> map snr_01 ex_rx.
+Proof.
+  eexists. split; [vm_compute; reflexivity|]. split; [vm_compute; reflexivity|].
+  eexists. split; [vm_compute; reflexivity|]. vm_compute. discriminate.
+Qed.
+
+Definition ex_tab : tables := mkT [(4000, 1); (2000, 1 # 2)] [] [(3 # 2, 1)].
+Definition pfin_is (p : pen) (q : Q) : bool := match p with PFin x => Qeq_bool x q | PInf => false end.
+Example ex_penalties :
+  pfin_is (total_pen ex_tab 1000 5 1) ((1 # 4) + (2 # 3)) = true /\ pfin_is (total_pen ex_tab 4000 5 0) 1 = true /\
+  total_pen ex_tab 4001 5 1 = PInf /\ total_pen ex_tab 1000 5 2 = PInf /\ total_pen ex_tab (-1) 5 1 = PInf.
+Proof. repeat split; vm_compute; reflexivity. Qed.
+
+Example ex_fixed :
+  exists m, metric ex_tab (mkF [20; 21] [1000; 3000] [5; 5] [1; 0]) = Ok m /\
+    decide_fixed (19 + (8 # 100)) m None = None /\ decide_fixed (19 + (9 # 100)) m None = Some MODE_NOT_FEASIBLE /\
+    decide_fixed 15 m (Some (MFin 14)) = Some MODE_NOT_FEASIBLE.
+Proof. eexists. split; [vm_compute; reflexivity|]. repeat split; vm_compute; reflexivity. Qed.
+
+(* a library with two baud rates, three offsets; the 64 GBd modes do not fit 50 GHz *)
+Definition ex_lib : list mode :=
+  [mkM 0 32 0 100 (75 # 2) 12 (mkT [] [] []); mkM 1 64 0 400 75 20 (mkT [] [] []);
+   mkM 2 32 3 200 50 16 ex_tab; mkM 3 44 0 300 50 30 (mkT [] [] [])].
+Definition ex_P : provider := fun it m => Some (mkF [if Qeq_bool (snd it) 3 then 21 else 19; 22] [1000; 3000] [5; 5] [1; 0]).
+Example ex_loop :
+  map (fun x => (fst x, m_id (snd x))) (explore ex_lib 50) = [((44, 0), 3%Z); ((32, 3), 2%Z); ((32, 3), 0%Z); ((32, 0), 2%Z); ((32, 0), 0%Z)] /\
+  (exists m, mode_loop 2 ex_P ex_lib 50 = Selected (32, 3) m /\ m_id m = 2%Z) /\
+  (exists m, mode_loop 5 ex_P ex_lib 50 = Selected (32, 3) m /\ m_id m = 0%Z) /\
+  (exists m, mode_loop 10 ex_P ex_lib 50 = NoFeasibleMode (32, 0) m /\ m_id m = 0%Z) /\
+  mode_loop 2 ex_P ex_lib 30 = NoBaudrate.
+Proof.
+  split; [vm_compute; reflexivity|]. split; [eexists; split; vm_compute; reflexivity|].
+  split; [eexists; split; vm_compute; reflexivity|]. split; [eexists; split; vm_compute; reflexivity|].
+  vm_compute; reflexivity.
+Qed.
